@@ -12,6 +12,13 @@ IDX_NAMES = ["i", "j", "k", "l", "m", "n", "p", "q", "r", "t"]
 
 
 # ------------------------------------------------------------------ generation
+def _axis_size(tape, max_size):
+    """1..max_size, and now and then 0: an empty axis is a valid input (no element is computed)."""
+    if tape.coin(0.05, "empty-axis"):
+        return 0
+    return 1 + tape.choose(max_size, "axis-size")
+
+
 def gen_workload(tape, *, max_funcs=5, max_size=3, allow_gen=True, allow_tuple=True,
                  allow_nomap=True, allow_partial=True, min_funcs=1, allow_defaults=True):
     idx_size: dict = {}
@@ -23,7 +30,7 @@ def gen_workload(tape, *, max_funcs=5, max_size=3, allow_gen=True, allow_tuple=T
 
     def new_index():
         name = IDX_NAMES[len(idx_size)]
-        idx_size[name] = 1 + tape.choose(max_size, "axis-size")
+        idx_size[name] = _axis_size(tape, max_size)
         return name
 
     def some_index():
@@ -137,7 +144,7 @@ def gen_workload(tape, *, max_funcs=5, max_size=3, allow_gen=True, allow_tuple=T
             if (kind == "gen" or not in_specs) and allow_gen:
                 internal = IDX_NAMES[len(idx_size)] if len(idx_size) < len(IDX_NAMES) else None
                 if internal is not None:
-                    idx_size[internal] = 1 + tape.choose(max_size, "axis-size")
+                    idx_size[internal] = 1 + tape.choose(max_size, "axis-size")  # internal axes are never empty
                     pos = tape.choose(len(out_axes) + 1, "internal-pos")
                     out_axes.insert(pos, internal)
                     fd["out_shape"] = [idx_size[internal]]
